@@ -187,13 +187,15 @@ func TestVerifReproC13Resilience(t *testing.T) {
 			ctx, cancel := stdcontext.WithCancel(stdcontext.Background())
 			cancel() // the client is gone: the wrapper must not sleep
 			if pn, txt, site, _ := vfRecoverRoot(func() { _ = w.Wrap(func(stdcontext.Context) error { return errors.New("boom") })(ctx) }); pn {
-				t.Errorf("REPRODUCED a wrapped call panics: key=[%s] text=%q", vfKey2(pol.Kind(), site, txt), txt)
+				t.Errorf("REPRODUCED a wrapped call panics: key=[%s] text=%q", vfKey2(pol.Kind(), site, txt)+vfRetryCause([]interface{}{vfStringMap(vfFromYAML(c.yaml))}), txt)
 				return
 			}
 			t.Logf("accepted and wrapped a failing call without a panic")
 		})
 	}
 }
+
+func vfStringMap(m map[string]interface{}) map[string]interface{} { return m }
 
 func TestVerifReproC13MQTTProxy(t *testing.T) {
 	env := vfGetEnv(t)
